@@ -67,3 +67,10 @@ CHECKS["C05"] = {
     "text": "quick: 1.8k programs / 35k attempts; thorough: 26.6k programs / 705k attempts (LoopFuse in both argument orders, LoopSwap, ChunkLoop chunksize 1-4, LoopTiling2D, Hoist, HoistLoopBoundExpr, ReplaceInductionVariables, FoldConditionalReturnExpressions; negative-literal-step program variants built through the PSyIR API). Store equality under an exact interpreter is the strongest oracle available without a proof of each transformation.",
     "note": "E1 is the trusted semantics; post-loop values of loop variables and transformation temporaries are not observed; refusals and non-TransformationError exceptions are not judged. Open findings: zero-trip hoisting (HoistTrans, ReplaceInductionVariables), LoopFuse dependences/argument order, LoopSwap/LoopTiling without dependence analysis, ChunkLoop negative literal step. Fixed: ChunkLoop step not dividing chunk size.",
 }
+
+CHECKS["C02"] = {
+    "level": "model_checking",
+    "technique": "exhaustive enumeration of all type-correct PSyIR expression trees up to depth 3 (operands in every child position) built with the PSyIR API, written by the real FortranWriter, checked with gfortran -std=f2008 and read back by the real FortranReader; structural comparison by an independent skeleton walker; E1 evaluation classifies mismatches as value-changing or structure-only",
+    "text": "quick: 20k trees (all depth<=2 trees over 10 numeric / 2 logical leaf kinds incl. signed literals, kind-suffixed literals, array/structure accesses and intrinsic calls; all depth-3 trees over reduced leaf sets); thorough: 258k trees incl. depth-4 spines. Each written expression must be standard conforming and re-read to a structurally equal tree.",
+    "note": "A signed Literal is identified with MINUS(literal) after the round trip (weaker than the text). Only syntax/conformance diagnostics of gfortran count (constant-folding errors such as division by zero are ignored). Open findings: signed literals not parenthesised; unary left operand of * / ** not parenthesised. Fixed: (a**b)**c.",
+}
